@@ -43,12 +43,12 @@ pub static DEF: CheckDef = CheckDef {
 fn families(t: Tier) -> Vec<(&'static str, u64)> {
     vec![
         ("program-topo", t.n(3_000, 66_822)),
-        ("program-dag-exact", t.n(10_000, 300_000)),
-        ("program-dag-smooth", t.n(3_000, 200_000)),
+        ("program-dag-exact", t.n(10_000, 600_000)),
+        ("program-dag-smooth", t.n(3_000, 400_000)),
         ("program-readme", t.n(500, 20_000)),
-        ("program-toggles", t.n(4_000, 200_000)),
-        ("history", t.n(5_000, 100_000)),
-        ("training", t.n(800, 15_000)),
+        ("program-toggles", t.n(4_000, 400_000)),
+        ("history", t.n(5_000, 200_000)),
+        ("training", t.n(800, 30_000)),
         ("deep-drop", 3),
     ]
 }
